@@ -141,6 +141,7 @@ type RunCtx struct {
 	expired    bool
 	pbuf       [8]byte
 	pmap       []byte
+	polls      uint64
 	skip       map[int64]bool
 	lastCkpt   time.Time
 	ResultPath string
@@ -168,8 +169,9 @@ func NewRunCtx(prop, tier string, shard, nshards int, deadline time.Time) *RunCt
 // flight survives a fatal crash of this process without a syscall per case.
 func (rc *RunCtx) SetProgressFile(f *os.File) {
 	rc.progress = f
-	f.Truncate(8)
-	m, err := syscall.Mmap(int(f.Fd()), 0, 8, syscall.PROT_READ|syscall.PROT_WRITE, syscall.MAP_SHARED)
+	// word 0: index of the case in flight; word 1: heartbeat of a long-running case
+	f.Truncate(16)
+	m, err := syscall.Mmap(int(f.Fd()), 0, 16, syscall.PROT_READ|syscall.PROT_WRITE, syscall.MAP_SHARED)
 	if err == nil {
 		rc.pmap = m
 	}
@@ -183,10 +185,16 @@ func (rc *RunCtx) Index() int64 { return rc.idx }
 
 // Expired reports whether the internal deadline passed; the enumeration must stop.
 func (rc *RunCtx) Expired() bool {
+	// a case that explores many executions polls Expired between them: that is its sign of
+	// life for the coordinator's hang watchdog (a single execution that never ends gives none)
+	rc.polls++
+	if rc.polls&0xff == 0 && rc.pmap != nil && len(rc.pmap) >= 16 {
+		binary.LittleEndian.PutUint64(rc.pmap[8:], rc.polls)
+	}
 	if rc.expired {
 		return true
 	}
-	if rc.idx&0x3f == 0 && !rc.Deadline.IsZero() && time.Now().After(rc.Deadline) {
+	if (rc.idx&0x3f == 0 || rc.polls&0xff == 0) && !rc.Deadline.IsZero() && time.Now().After(rc.Deadline) {
 		rc.expired = true
 		rc.res.Complete = false
 		rc.res.CapsHit = append(rc.res.CapsHit, fmt.Sprintf("deadline at index %d", rc.idx))
